@@ -103,6 +103,9 @@ NESTED_ITEMS = [
     ('PartialEq, Hash',
      'struct K { #[partial_eq(ignore)] a: [u8; { struct I { #[partial_eq(ignore)] #[hash(ignore)] x: u8 } 2 }], #[hash(ignore)] b: u8 }',
      'struct K { a: [u8; { struct I { #[partial_eq(ignore)] #[hash(ignore)] x: u8 } 2 }], b: u8 }'),
+    ('', 'struct X<T> { #[derive_ex(Clone(bound(T)))] a: T, b: u8 }', 'struct X<T> { a: T, b: u8 }'),
+    ('bound(T)', 'enum E<T> { #[derive_ex(Clone(bound(T)))] A(#[derive_ex(Debug)] T), B }', 'enum E<T> { A(T), B }'),
+    ('', '#[derive_ex()] #[derive_ex(bound(T))] struct X<T>(#[derive_ex(Clone)] T);', 'struct X<T>(T);'),
     ('Clone',
      'enum E { A = { enum J { #[derive_ex(Clone)] P(#[derive_ex(Clone(bound()))] u8) } 0 }, #[derive_ex(Clone)] B }',
      'enum E { A = { enum J { #[derive_ex(Clone)] P(#[derive_ex(Clone(bound()))] u8) } 0 }, B }'),
